@@ -148,6 +148,8 @@ pub const DIRECTED: &[(&str, usize, &str)] = &[
     // the left branch of an xor hands a call over to another peer (inside a par whose other side is complete)
     // and then fails in the same run: the peer it forwarded to must still receive the particle
     ("xor-left-forwards-then-fails", 3, r#"(seq (call "@P0" ("svc" "f0") [] x) (xor (seq (par (call "@P1" ("svc" "f1") [x]) (null)) (fail 7 "left fails after forwarding")) (call "@P2" ("svc" "f2") [x])))"#),
+    // a fold over a canonicalised stream map with a repeated key, run by a peer that replays the canon from data
+    ("canon-map-fold-repeated-keys", 2, r#"(seq (ap ("k1" "a") %m) (seq (ap ("k2" "b") %m) (seq (ap ("k1" "c") %m) (seq (ap ("k3" "d") %m) (seq (ap ("k4" "e") %m) (seq (ap ("k5" "f") %m) (seq (canon "@P0" %m #%cm) (fold #%cm it (seq (call "@P1" ("svc" "f1") [it]) (next it))))))))))"#),
     // a stream map with string and number keys of the same text: both name one field of the map's JSON form
     ("colliding-map-keys", 2, r#"(seq (ap ("42" "s42") %m) (seq (ap (42 "n42") %m) (seq (ap ("7" "s7") %m) (seq (ap (7 "n7") %m) (seq (ap (-1 "n") %m) (seq (canon "@P0" %m #%cm) (seq (call "@P1" ("svc" "f1") [#%cm]) (seq (call "@P0" ("svc" "f2") [#%cm #%cm.length]) (canon "@P1" %m whole)))))))))"#),
     // new-scoped stream inside a stream fold, canonicalised per iteration
